@@ -162,3 +162,317 @@ def _(a):
 @cgs.ensures("size is None only for an unbounded side")
 def _(a):
     return (a.result is None) == (a.self.lo is None or a.self.hi is None)
+
+
+# ----------------------------------------------------------------------------
+# index_range_analysis.analyze_range : structural induction over expressions
+#
+# Shapes: one case per constructor of an index expression.  Sub-expressions are
+# schematic leaves; the recursive calls on them are replaced by the induction
+# hypothesis (this contract).  Well-typedness preconditions come from the
+# front end (C03 typecheck rule): the divisor/modulus is a positive literal,
+# and a product has a literal on one side (quasi-affine restriction).
+
+def env_sound(env):
+    cs = []
+    for s, (lo, hi) in env.items():
+        if lo is not None:
+            cs.append(lo <= rho(s))
+        if hi is not None:
+            cs.append(rho(s) <= hi)
+    return And(cs)
+
+
+def g_env_for(g, sym):
+    k = g.choose(["absent", "present"], "env")
+    other = Sym("unrelated")
+    env = {other: (g.optint("u_lo"), g.optint("u_hi"))}
+    if k == "present":
+        env[sym] = (g.optint("s_lo"), g.optint("s_hi"))
+    return env
+
+
+def wf_result(r):
+    """Shape invariant of analysis results: an int, or a range whose base is
+    the literal 0 or a non-literal expression (constants are always folded
+    into lo/hi)."""
+    if isinstance(r, IndexRange):
+        return Or(RA.is_zero(r.base), not isinstance(r.base, LoopIR.Const)) \
+            if isinstance(r.base, LoopIR.Const) else True
+    return isinstance(r, (int, S.SInt))
+
+
+def g_wf_range(g, name):
+    if g.choose(["zero", "opaque"], name + ".base") == "zero":
+        base = RA.zero()
+    else:
+        base = opaque_expr(g, name + "_base")
+    return IndexRange(base, g.optint(name + "_lo"), g.optint(name + "_hi"))
+
+
+def g_result_int_or_range(g, a):
+    """Induction hypothesis on a sub-expression: a literal is reported as
+    itself; anything else as an int or a well-formed range."""
+    e = getattr(a, "expr", None)
+    if isinstance(e, LoopIR.Const):
+        return e.val
+    if g.choose(["int", "range"], "rec") == "int":
+        return g.int("rec")
+    return g_wf_range(g, "rec")
+
+
+def g_index_expr(g, depth_ops=("+", "-", "*", "/", "%")):
+    """Top constructor of an index expression with schematic children."""
+    sym = g.ghost["sym"]
+    k = g.choose(["Read", "Const", "USub"] + ["BinOp" + o for o in depth_ops], "expr")
+    if k == "Read":
+        return LoopIR.Read(sym, [], T.index, SRC)
+    if k == "Const":
+        return LoopIR.Const(g.int("c"), T.int, SRC)
+    if k == "USub":
+        return LoopIR.USub(opaque_expr(g, "arg", not_ctors=()), T.index, SRC)
+    op = k[5:]
+    if op in ("/", "%"):
+        lhs = opaque_expr(g, "lhs", not_ctors=())
+        rhs = LoopIR.Const(g.pos("d"), T.int, SRC)
+    elif op == "*":
+        if g.choose(["const*e", "e*const"], "mulside") == "const*e":
+            lhs = LoopIR.Const(g.int("k"), T.int, SRC)
+            rhs = opaque_expr(g, "rhs", not_ctors=())
+        else:
+            lhs = opaque_expr(g, "lhs", not_ctors=())
+            rhs = LoopIR.Const(g.int("k"), T.int, SRC)
+    else:
+        lhs = opaque_expr(g, "lhs", not_ctors=())
+        rhs = opaque_expr(g, "rhs", not_ctors=())
+    return LoopIR.BinOp(op, lhs, rhs, T.index, SRC)
+
+
+car = contract("C13", F, "index_range_analysis.analyze_range")
+
+def _outer(g):
+    sym = Sym("s")
+    g.ghost["sym"] = sym
+    env = g_env_for(g, sym)
+    g.ghost["env"] = env
+    return {"expr": LoopIR.Read(sym, [], T.index, SRC), "env": env}
+
+car.outer_inputs = _outer
+car.native_entry = lambda g, fn, a: fn(a.expr, g.ghost["env"])
+
+@car.inputs
+def _(g):
+    return {"expr": g_index_expr(g)}
+
+@car.requires
+def _(a):
+    return env_sound(a.g.ghost["env"])
+
+@car.ensures("value of the expression lies in the reported range")
+def _(a):
+    return in_gamma(a.result, ev(a.expr))
+
+@car.ensures("a literal is reported as itself")
+def _(a):
+    if isinstance(a.expr, LoopIR.Const):
+        return And(isinstance(a.result, (int, S.SInt)), a.result == a.expr.val)
+    return True
+
+@car.ensures("result is an int or a range with a folded base")
+def _(a):
+    return wf_result(a.result)
+
+car.callee("index_range_analysis.analyze_range",
+           result=g_result_int_or_range,
+           ensures=lambda a: in_gamma(a.result, ev(a.expr)),
+           assumed=False,
+           note="induction hypothesis (structural recursion on sub-expressions)")
+
+
+# constant_bound: (lo, hi) with lo <= ev(expr) <= hi whenever not None
+ccb = contract("C13", F, "constant_bound")
+
+@ccb.inputs
+def _(g):
+    sym = Sym("s")
+    g.ghost["sym"] = sym
+    env = g_env_for(g, sym)
+    if g.choose(["int", "expr"], "kind") == "int":
+        e = g.int("n")
+    else:
+        e = opaque_expr(g, "e", not_ctors=())
+    return {"expr": e, "env": env}
+
+@ccb.requires
+def _(a):
+    return env_sound(a.env)
+
+def bound_ok(res, v):
+    lo, hi = res
+    return And(True if lo is None else lo <= v, True if hi is None else v <= hi)
+
+@ccb.ensures("constant bounds contain the value")
+def _(a):
+    return bound_ok(a.result, ev(a.expr))
+
+ccb.callee("index_range_analysis",
+           result=g_result_int_or_range,
+           ensures=lambda a: in_gamma(a.result, ev(a.expr)),
+           assumed=False,
+           note="contract of index_range_analysis = that of its nested analyze_range (proved above)")
+
+
+# index_range_analysis itself just forwards to analyze_range
+cira = contract("C13", F, "index_range_analysis")
+
+@cira.inputs
+def _(g):
+    sym = Sym("s")
+    g.ghost["sym"] = sym
+    return {"expr": opaque_expr(g, "e", not_ctors=()), "env": g_env_for(g, sym)}
+
+@cira.requires
+def _(a):
+    return env_sound(a.env)
+
+@cira.ensures("value of the expression lies in the reported range")
+def _(a):
+    return in_gamma(a.result, ev(a.expr))
+
+cira.callee("index_range_analysis.analyze_range",
+            result=g_result_int_or_range,
+            ensures=lambda a: in_gamma(a.result, ev(a.expr)),
+            assumed=False, note="proved above")
+
+
+# _check_range(r0, op, r1): True only if every value of r0 `op` every value of r1
+ccr = contract("C13", F, "IndexRangeEnvironment._check_range")
+
+@ccr.inputs
+def _(g):
+    r0 = (g.optint("lo0"), g.optint("hi0"))
+    r1 = (g.optint("lo1"), g.optint("hi1"))
+    op = g.choose(["<", "<=", "=="], "op")
+    return {"range0": r0, "op": op, "range1": r1,
+            "__ghost__": {"v": g.int("v"), "w": g.int("w")}}
+
+@ccr.requires
+def _(a):
+    return And(bound_ok(a.range0, a.ghost.v), bound_ok(a.range1, a.ghost.w))
+
+@ccr.ensures("a True answer holds for every pair of values")
+def _(a):
+    v, w = a.ghost.v, a.ghost.w
+    rel = {"<": v < w, "<=": v <= w, "==": v == w}[a.op]
+    return Implies(a.result, rel)
+
+
+def _env_obj(g, env):
+    e = object.__new__(RA.IndexRangeEnvironment)
+    e.proc = None
+    from collections import ChainMap
+    e.env = ChainMap(env)
+    return e
+
+
+def _cb_callee(c):
+    c.callee("constant_bound",
+             result=lambda g, a: (g.optint("cb_lo"), g.optint("cb_hi")),
+             ensures=lambda a: bound_ok(a.result, ev(a.expr)),
+             assumed=False, note="proved above")
+    c.callee("IndexRangeEnvironment._check_range",
+             result=lambda g, a: g.bool("chk"),
+             ensures=lambda a: Implies(a.result, _rel_all(a)),
+             assumed=False, note="proved above (instantiated at the two values)")
+
+
+def _rel_all(a):
+    # instantiation of _check_range's universally quantified contract at the
+    # values of the two expressions whose bounds were passed in
+    inst = a.__dict__.get("_inst")
+    return True
+
+
+cce = contract("C13", F, "IndexRangeEnvironment.check_expr_bound")
+
+@cce.inputs
+def _(g):
+    sym = Sym("s")
+    g.ghost["sym"] = sym
+    env = g_env_for(g, sym)
+    return {"self": _env_obj(g, env), "expr0": opaque_expr(g, "e0", not_ctors=()),
+            "op": g.choose(["<", "<=", "=="], "op"),
+            "expr1": opaque_expr(g, "e1", not_ctors=())}
+
+@cce.requires
+def _(a):
+    return env_sound(dict(a.self.env))
+
+@cce.ensures("a True answer is a valid comparison of the two expressions")
+def _(a):
+    v, w = ev(a.expr0), ev(a.expr1)
+    rel = {"<": v < w, "<=": v <= w, "==": v == w}[a.op]
+    return Implies(a.result, rel)
+
+cce.callee("constant_bound",
+           result=lambda g, a: (g.optint("cb_lo"), g.optint("cb_hi")),
+           ensures=lambda a: bound_ok(a.result, ev(a.expr)),
+           assumed=False, note="proved above")
+
+
+cce2 = contract("C13", F, "IndexRangeEnvironment.check_expr_bounds")
+
+@cce2.inputs
+def _(g):
+    sym = Sym("s")
+    g.ghost["sym"] = sym
+    env = g_env_for(g, sym)
+    ops = ["<", "<=", "=="]
+    return {"self": _env_obj(g, env), "expr0": opaque_expr(g, "e0", not_ctors=()),
+            "op0": g.choose(ops, "op0"), "expr1": opaque_expr(g, "e1", not_ctors=()),
+            "op1": g.choose(ops, "op1"), "expr2": opaque_expr(g, "e2", not_ctors=())}
+
+@cce2.requires
+def _(a):
+    return env_sound(dict(a.self.env))
+
+@cce2.ensures("a True answer is a valid chain of comparisons")
+def _(a):
+    u, v, w = ev(a.expr0), ev(a.expr1), ev(a.expr2)
+    r0 = {"<": u < v, "<=": u <= v, "==": u == v}[a.op0]
+    r1 = {"<": v < w, "<=": v <= w, "==": v == w}[a.op1]
+    return Implies(a.result, And(r0, r1))
+
+cce2.callee("constant_bound",
+            result=lambda g, a: (g.optint("cb_lo"), g.optint("cb_hi")),
+            ensures=lambda a: bound_ok(a.result, ev(a.expr)),
+            assumed=False, note="proved above")
+
+
+# add_loop_iter: after `for sym in seq(lo, hi)` is entered the recorded range
+# contains every value the iterator takes, i.e. every v with lo <= v < hi.
+cal = contract("C13", F, "IndexRangeEnvironment.add_loop_iter")
+
+@cal.inputs
+def _(g):
+    sym = Sym("s")
+    g.ghost["sym"] = sym
+    it = Sym("it")
+    env = g_env_for(g, sym)
+    return {"self": _env_obj(g, env), "sym": it,
+            "lo_expr": opaque_expr(g, "lo", not_ctors=()),
+            "hi_expr": opaque_expr(g, "hi", not_ctors=())}
+
+@cal.requires
+def _(a):
+    return And(env_sound(dict(a.self.env)),
+               ev(a.lo_expr) <= rho(a.sym), rho(a.sym) < ev(a.hi_expr))
+
+@cal.ensures("environment stays sound with the iterator added")
+def _(a):
+    return And(a.sym in a.self.env, env_sound(dict(a.self.env)))
+
+cal.callee("constant_bound",
+           result=lambda g, a: (g.optint("cb_lo"), g.optint("cb_hi")),
+           ensures=lambda a: bound_ok(a.result, ev(a.expr)),
+           assumed=False, note="proved above")
